@@ -439,7 +439,7 @@ func TestVerifC10Decode(t *testing.T) {
 		defer close(rtDone)
 		if !replaying {
 			c10Roundtrip(r)
-	c10Pipelined(r)
+			c10Pipelined(r)
 		}
 	}()
 	c10Crash(t, r, replaying, replayIn)
@@ -831,7 +831,6 @@ func c10Roundtrip(r *verifkit.Run) {
 	r.Floor("multibyte_client_id", 50)
 }
 
-
 // ---------------------------------------------------------------------------
 // pipelined round trip: several requests back to back in ONE byte stream (a client that does not wait for
 // replies; consecutive small requests share a TCP segment). Every frame must come out exactly as sent, in order,
@@ -852,7 +851,8 @@ func (g *c10GreedyReader) Read(p []byte) (int, error) {
 
 func c10Pipelined(r *verifkit.Run) {
 	n := r.N(1500, 40000)
-	for ci := 0; ci < n; ci++ {
+	bad := 0
+	for ci := 0; ci < n && bad < 5; ci++ { // a broken frame reader mis-reads payload bytes as huge lengths: stop after a few witnesses
 		rng := r.Rand(1000000 + ci)
 		k := 2 + rng.Intn(5)
 		var stream []byte
@@ -886,20 +886,24 @@ func c10Pipelined(r *verifkit.Run) {
 		func() {
 			defer func() {
 				if p := recover(); p != nil {
+					bad++
 					r.Violation("panic_on_pipelined_requests", fmt.Sprintf("panic: %v", p), replay)
 				}
 			}()
 			for i, w := range wires {
 				fr, err := ReadFrame(rd)
 				if err != nil {
+					bad++
 					r.Violation("pipelined_frame_lost", fmt.Sprintf("request %d of %d (%s) in one stream: ReadFrame: %v", i, k, desc[i], err), replay)
 					return
 				}
 				if !bytes.Equal(fr.Payload, w[4:]) {
+					bad++
 					r.Violation("pipelined_frame_differs", fmt.Sprintf("request %d of %d (%s) in one stream: payload differs from the bytes sent", i, k, desc[i]), replay)
 					return
 				}
 				if _, _, err := ParseRequest(fr.Payload); err != nil {
+					bad++
 					r.Violation("pipelined_request_rejected", fmt.Sprintf("request %d of %d (%s): %v", i, k, desc[i], err), replay)
 					return
 				}
@@ -908,5 +912,7 @@ func c10Pipelined(r *verifkit.Run) {
 		}()
 		r.Case(fmt.Sprint("pipelined", ci, mode, desc), true)
 	}
-	r.Floor("pipelined_frames_read", 1000)
+	if bad == 0 {
+		r.Floor("pipelined_frames_read", 1000)
+	}
 }
